@@ -3,6 +3,7 @@ package main
 import (
 	"fmt"
 	"go/types"
+	"os"
 	"strings"
 
 	"golang.org/x/tools/go/ssa"
@@ -40,7 +41,7 @@ func (fr *Frame) lookup(st *State, x *ssa.Lookup) {
 	}
 	mi := r.mapHeaps(st, mt)
 	m, k := fr.tv(st, x.X).S, fr.tv(st, x.Index).S
-	in := r.define("inmap", SBool, app("select", app("select", mi.dom, m), k))
+	in := r.define("inmap", SBool, and(not(eq(m, "0")), app("select", app("select", mi.dom, m), k)))
 	v := r.define(x.Name(), mi.vsort, ite(in, app("select", app("select", mi.m, m), k), r.zero(mt.Elem()).S))
 	r.assumeGlobal(r.typeInv(v, mt.Elem(), st))
 	if x.CommaOk {
@@ -55,7 +56,7 @@ func (fr *Frame) mapUpdate(st *State, x *ssa.MapUpdate) {
 	mt := x.Map.Type().Underlying().(*types.Map)
 	mi := r.mapHeaps(st, mt)
 	m, k, v := fr.tv(st, x.Map).S, fr.tv(st, x.Key).S, fr.tv(st, x.Value).S
-	was := app("select", app("select", mi.dom, m), k)
+	was := and(not(eq(m, "0")), app("select", app("select", mi.dom, m), k))
 	r.heapSet(st, mi.lenName, app("store", mi.ln, m, app("+", app("select", mi.ln, m), ite(was, "0", "1"))))
 	r.heapSet(st, mi.mName, app("store", mi.m, m, app("store", app("select", mi.m, m), k, v)))
 	r.heapSet(st, mi.domName, app("store", mi.dom, m, app("store", app("select", mi.dom, m), k, "true")))
@@ -94,7 +95,7 @@ func (fr *Frame) rangeNext(st *State, x *ssa.Next) {
 	k := r.freshOf(st, "rk", mt.Key())
 	visited := app("select", h, it)
 	dom := app("select", mi.dom, m)
-	r.assume(st, implies(okv, and(app("select", dom, k.S), not(app("select", visited, k.S)))))
+	r.assume(st, implies(okv, and(not(eq(m, "0")), app("select", dom, k.S), not(app("select", visited, k.S)))))
 	q := r.fresh("qk")
 	r.assume(st, implies(not(okv), fmt.Sprintf("(forall ((%s %s)) (=> (select %s %s) (select %s %s)))", q, mi.ksort, dom, q, visited, q)))
 	v := TV{r.define("rv", mi.vsort, app("select", app("select", mi.m, m), k.S)), mi.vsort, mt.Elem()}
@@ -188,6 +189,20 @@ func (fr *Frame) call(st *State, in ssa.Instruction, c *ssa.CallCommon, v ssa.Va
 	}
 	args = fr.argVals(st, c)
 	if fn == nil {
+		// dynamic call through a named function type that carries a contract
+		if nt, ok := c.Value.Type().(*types.Named); ok && nt.Obj().Pkg() != nil {
+			if sp := r.eng.specs.Funcs["functype "+nt.Obj().Pkg().Path()+"."+nt.Obj().Name()]; sp != nil {
+				var names []string
+				for i := 0; i < sig.Params().Len(); i++ {
+					n := sig.Params().At(i).Name()
+					if n == "" || n == "_" {
+						n = fmt.Sprintf("arg%d", i)
+					}
+					names = append(names, n)
+				}
+				return fr.applyContract(st, sp, nil, sig, args, names, sp.Name)
+			}
+		}
 		r.abstracted["dynamic call in "+fr.fn.Name()] = true
 		return fr.havocCall(st, nil, sig, args, "dynamic")
 	}
@@ -332,6 +347,9 @@ func (fr *Frame) havocCall(st *State, fn *ssa.Function, sig *types.Signature, ar
 	r := fr.run
 	if fn != nil {
 		mods := r.eng.modsetFunc(fn, map[*ssa.Function]bool{})
+		if os.Getenv("GOCV_DEBUG") != "" && len(mods) > 0 {
+			fmt.Fprintf(os.Stderr, "[havoc] %s in %s: %v\n", name, fr.fn.Name(), sortedKeys(mods))
+		}
 		for _, h := range sortedKeys(mods) {
 			r.heapHavoc(st, h)
 		}
@@ -521,7 +539,7 @@ func (fr *Frame) builtin(st *State, b *ssa.Builtin, c *ssa.CallCommon, v ssa.Val
 			return TV{app("strlen", a.S), SInt, it}
 		case *types.Map:
 			mi := r.mapHeaps(st, t)
-			ln := r.define("maplen", SInt, app("select", mi.ln, a.S))
+			ln := r.define("maplen", SInt, ite(eq(a.S, "0"), "0", app("select", mi.ln, a.S)))
 			r.assumeGlobal(app(">=", ln, "0"))
 			return TV{ln, SInt, it}
 		case *types.Array:
